@@ -97,9 +97,13 @@ func c02Content(c *Ctx, tag string) (mcp.Content, string) {
 			x.Annotated = ann
 			return x, "embedded-text/" + class + annS
 		}
-		x := mcp.NewEmbeddedResource(mcp.BlobResourceContents{URI: "res://emb/" + tag, MIMEType: "application/octet-stream", Blob: "YmxvYg=="})
+		blob, kind := "YmxvYg==", "embedded-blob"
+		if t.Bool(25) {
+			blob, kind = "", "embedded-blob/empty" // an empty file
+		}
+		x := mcp.NewEmbeddedResource(mcp.BlobResourceContents{URI: "res://emb/" + tag, MIMEType: "application/octet-stream", Blob: blob})
 		x.Annotated = ann
-		return x, "embedded-blob" + annS
+		return x, kind + annS
 	}
 }
 
@@ -185,8 +189,12 @@ func runC02(c *Ctx) {
 			resContents = append(resContents, mcp.TextResourceContents{URI: fmt.Sprintf("res://multi#%d", n), MIMEType: []string{"", "text/plain"}[t.Draw(2)], Text: c02String(class, "r", false)})
 			resKinds = append(resKinds, "text-resource/"+class)
 		} else {
-			resContents = append(resContents, mcp.BlobResourceContents{URI: fmt.Sprintf("res://multi#%d", n), MIMEType: "application/octet-stream", Blob: "QkxPQg=="})
-			resKinds = append(resKinds, "blob-resource")
+			blob, kind := "QkxPQg==", "blob-resource"
+			if t.Bool(25) {
+				blob, kind = "", "blob-resource/empty" // an empty file
+			}
+			resContents = append(resContents, mcp.BlobResourceContents{URI: fmt.Sprintf("res://multi#%d", n), MIMEType: "application/octet-stream", Blob: blob})
+			resKinds = append(resKinds, kind)
 		}
 	}
 	// descriptors
